@@ -42,7 +42,8 @@ def seeded_table():
         st["first"] += 1 if first_c else 0
         st["now"] += 1 if caught else 0
         st["target"] += 1 if pid in caught else 0
-        cb = (", ".join(caught) + " (" + ", ".join(rules) + ")") if caught else ("stale: no longer applies (the defect it rested on was repaired)" if stale else "— not reported")
+        ce = sorted((m.get("checker_errors") or {}).keys())
+        cb = (", ".join(caught) + " (" + ", ".join(rules) + ")") if caught else ("stale: no longer applies (the defect it rested on was repaired)" if stale else ("cannot decide: CHECKER-ERROR in " + ", ".join(ce) + " (an anchor of a rule is gone)" if ce else "— not reported"))
         site = (m.get("site") or "").replace("|", "/")[:70]
         needs = (m.get("needs") or "").replace("|", "/").replace("\n", " ")
         if len(needs) > 150:
